@@ -194,12 +194,15 @@ pub struct Sim {
     pub rng: Rng,
     pub job: JobView,
     pub core: crate::coreview::CoreView,
+    pub mon: crate::monitors::Monitors,
     completed: BTreeMap<u32, u32>,
     known_jobs: Vec<u32>,
     open_jobs: Vec<u32>,
     pub panicked: Option<String>,
     /// human-readable log of world actions (debugging / replay files)
     pub log: Vec<String>,
+    /// generator profile: 0 basic, 1 prefill-heavy, 2 multi-node, 3 resources/variants/strict policies
+    pub profile: u64,
 }
 
 fn task_desc(priority: i32, crash: CrashLimit, time_limit: Option<u64>) -> TaskDescription {
@@ -256,6 +259,66 @@ pub fn worker_config(worker_id: WorkerId, cpus: u32, group: &str, time_limit_ms:
     }
 }
 
+/// request classes used by the generator
+pub fn gen_rq(rng: &mut Rng, profile: u64) -> ResourceRequestVariants {
+    let cpu = |policy: AllocationRequest| ResourceRequestEntry { resource: "cpus".to_string(), policy };
+    let gpu = |n: u32| ResourceRequestEntry { resource: "gpus".to_string(), policy: AllocationRequest::Compact(ResourceAmount::new_units(n)) };
+    let rq = |n_nodes: u32, resources: Vec<ResourceRequestEntry>| ResourceRequest {
+        n_nodes,
+        resources: resources.into_iter().collect(),
+        min_time: Default::default(),
+        weight: Default::default(),
+    };
+    match profile {
+        1 => cpu_rq(1, 0),
+        2 => {
+            if rng.chance(1, 3) {
+                ResourceRequestVariants::new_simple(rq(2, vec![]))
+            } else {
+                cpu_rq(rng.range(1, 2) as u32, 0)
+            }
+        }
+        3 => match rng.below(6) {
+            0 => ResourceRequestVariants::new_simple(rq(0, vec![cpu(AllocationRequest::ForceCompact(ResourceAmount::new_units(2)))])),
+            1 => ResourceRequestVariants::new_simple(rq(0, vec![cpu(AllocationRequest::Compact(ResourceAmount::new_units(1))), gpu(1)])),
+            2 => ResourceRequestVariants::new_simple(rq(0, vec![cpu(AllocationRequest::All)])),
+            3 => ResourceRequestVariants::new(smallvec![
+                rq(0, vec![cpu(AllocationRequest::Compact(ResourceAmount::new_units(1))), gpu(1)]),
+                rq(0, vec![cpu(AllocationRequest::Compact(ResourceAmount::new_units(2)))]),
+            ]),
+            4 => ResourceRequestVariants::new_simple(rq(0, vec![cpu(AllocationRequest::Compact(ResourceAmount::new(1, 5000)))])),
+            _ => cpu_rq(1, 0),
+        },
+        _ => cpu_rq(rng.range(1, 2) as u32, 0),
+    }
+}
+
+pub fn gen_worker_resources(rng: &mut Rng, profile: u64) -> (ResourceDescriptor, Vec<u64>) {
+    use tako::resources::{ResourceDescriptorItem, ResourceDescriptorKind};
+    match profile {
+        1 => {
+            let c = rng.range(1, 2) as u32;
+            (ResourceDescriptor::simple_cpus(c), vec![c as u64 * 10_000])
+        }
+        3 => {
+            let sockets = rng.range(1, 2) as u32;
+            let per = rng.range(1, 2) as u32;
+            let mut items = vec![ResourceDescriptorItem { name: "cpus".to_string(), kind: ResourceDescriptorKind::regular_sockets(sockets, per) }];
+            let mut totals = vec![(sockets * per) as u64 * 10_000];
+            if rng.chance(1, 2) {
+                let g = rng.range(1, 2) as u32;
+                items.push(ResourceDescriptorItem::range("gpus", 0, g - 1));
+                totals.push(g as u64 * 10_000);
+            }
+            (ResourceDescriptor::new(items, Default::default()), totals)
+        }
+        _ => {
+            let c = rng.range(1, 4) as u32;
+            (ResourceDescriptor::simple_cpus(c), vec![c as u64 * 10_000])
+        }
+    }
+}
+
 fn ranges_text(ranges: &[(u32, u32, u32)]) -> String {
     if ranges.is_empty() {
         "-".to_string()
@@ -267,16 +330,20 @@ fn ranges_text(ranges: &[(u32, u32, u32)]) -> String {
 impl Sim {
     pub fn new(seed: u64) -> Sim {
         let world = World::new(&WorldConfig { prefill_reserve: 1, prefill_max: 1, journal: false });
+        let mut rng = Rng::new(seed);
+        let profile = rng.below(4);
         Sim {
             world,
-            rng: Rng::new(seed),
+            profile,
+            rng,
             job: JobView { lines: vec![] },
             core: Default::default(),
+            mon: Default::default(),
             completed: Default::default(),
             known_jobs: vec![],
             open_jobs: vec![],
             panicked: None,
-            log: vec![],
+            log: vec![format!("profile {profile}")],
         }
     }
 
@@ -296,11 +363,46 @@ impl Sim {
         let mut completed = std::mem::take(&mut self.completed);
         self.job.callbacks(&self.world, &cbs, &mut completed);
         self.completed = completed;
+        for cb in &cbs {
+            match &cb.kind {
+                CbKind::WorkerLost { worker, running, .. } => {
+                    self.mon.worker_lost(*worker, running);
+                    self.mon.events(&cb.events);
+                }
+                CbKind::Error { task, ret, .. } => {
+                    self.mon.events(&cb.events);
+                    self.mon.max_fails(*task, ret, &cb.jobs);
+                }
+                _ => self.mon.events(&cb.events),
+            }
+        }
         self.core_flush(core_ops, &cbs);
+        self.after_action();
+    }
+
+    /// monitors evaluated on the state after every action
+    fn after_action(&mut self) {
+        if self.panicked.is_some() {
+            return;
+        }
+        for (w, ids) in std::mem::take(&mut self.world.gave_back) {
+            self.mon.worker_gave_back(w, &ids);
+        }
+        let jobs = snapshot_jobs(&self.world.state_ref);
+        let log = self.world.launch.borrow().log.clone();
+        self.mon.launches(&log, &jobs);
+        self.mon.executing(&self.world.running_tasks());
+        self.mon.propagate(&jobs);
+        let fails = std::mem::take(&mut self.mon.fails);
+        for f in fails {
+            self.job.lines.push(f.clone());
+            self.core.lines.push(f);
+        }
     }
 
     fn core_flush(&mut self, mut ops: Vec<String>, cbs: &[Callback]) {
         let recs = tako::verif::sched::take();
+        self.mon.records(&recs);
         ops.extend(crate::coreview::record_ops(&recs));
         if recs.iter().any(|r| matches!(r, tako::verif::sched::Record::Sn { .. } | tako::verif::sched::Record::Mn { .. } | tako::verif::sched::Record::PrefillOrder { .. }))
             || ops.iter().any(|o| o == "sched")
@@ -313,16 +415,19 @@ impl Sim {
             return;
         }
         let rets: Vec<Vec<TaskId>> = cbs.iter().filter_map(|c| if let CbKind::Error { ret, .. } = &c.kind { Some(ret.clone()) } else { None }).collect();
-        self.core.op(&ops, &rets);
         if let Some(p) = &self.panicked {
+            // a panic inside the job layer (client callback) is not an outcome of the core model: the op is dropped
             if !is_job_layer_panic(p) {
+                self.core.op(&ops, &rets);
                 self.core.lines.push("out !panic core".to_string());
             }
             return;
         }
+        self.core.op(&ops, &rets);
         let flag = self.world.server.scheduling_flag();
         let snap = self.world.server.core_snapshot();
         self.core.outputs(&sent, cbs, flag, &snap);
+        self.mon.resinv(&snap);
     }
 
     fn client_op(&mut self, op_line: String, msg: FromClientMessage) -> Option<ToClientMessage> {
@@ -344,6 +449,7 @@ impl Sim {
         let mut completed = std::mem::take(&mut self.completed);
         self.job.events(&evs, &mut completed);
         self.completed = completed;
+        self.mon.events(&evs);
         let cbs = self.world.take_callbacks();
         self.core_flush(vec![], &cbs);
         resp
@@ -354,6 +460,7 @@ impl Sim {
         let live = self.world.server.task_ids();
         let w = &self.world;
         self.job.snapshot(w, &jobs, Some(&live));
+        self.after_action();
     }
 
     // ---- client actions -------------------------------------------------------------------
@@ -385,7 +492,7 @@ impl Sim {
             1 => Some(1),
             _ => None,
         };
-        let cpus = self.rng.range(1, 2) as u32;
+        let profile = self.profile;
         let existing_ids: Vec<u32> = job_id
             .and_then(|j| self.world.state_ref.get().get_job(JobId::new(j)).map(|job| job.tasks.keys().map(|k| k.as_num()).collect()))
             .unwrap_or_default();
@@ -403,7 +510,7 @@ impl Sim {
                 } else {
                     max_existing.map(|m| m + 1 + self.rng.below(2) as u32).unwrap_or(self.rng.below(3) as u32)
                 };
-                let n = entries.unwrap_or(self.rng.range(1, 4) as u32);
+                let n = entries.unwrap_or(if profile == 1 { self.rng.range(3, 8) as u32 } else { self.rng.range(1, 4) as u32 });
                 if self.rng.chance(1, 4) && n >= 2 {
                     // stepped range with exactly n elements
                     let step = 2;
@@ -420,7 +527,7 @@ impl Sim {
                 JobTaskDescription::Array {
                     ids,
                     entries: entries.map(|n| (0..n).map(|i| vec![i as u8].into()).collect()),
-                    resource_rq: cpu_rq(cpus, 0),
+                    resource_rq: gen_rq(&mut self.rng, profile),
                     task_desc: td,
                 },
                 text,
@@ -463,7 +570,7 @@ impl Sim {
                 ids.push(id);
             }
             (
-                JobTaskDescription::Graph { resource_rqs: vec![cpu_rq(1, 0), cpu_rq(2, 0)], tasks },
+                JobTaskDescription::Graph { resource_rqs: vec![gen_rq(&mut self.rng, profile), gen_rq(&mut self.rng, profile)], tasks },
                 format!("graph {}", text_items.join(";")),
             )
         };
@@ -510,6 +617,37 @@ impl Sim {
         let new: Vec<TaskId> = after.iter().filter(|t| !before.contains(t)).cloned().collect();
         self.job.lines.push(format!("out core {}", tids(&new)));
         self.job_snapshot();
+    }
+
+    /// probe used by src/bin/probe_mn.rs
+    pub fn probe_mn(&mut self, prio_mn: i32) {
+        use tako::resources::ResourceDescriptor;
+        for g in ["ga", "gb"] {
+            let next = WorkerId::new(self.world.server.worker_counter() + 1);
+            let mut cfg = worker_config(next, 2, g, None);
+            cfg.resources = ResourceDescriptor::simple_cpus(2);
+            self.world.add_worker(cfg);
+        }
+        let mk = |prio: i32, rq: ResourceRequestVariants| FromClientMessage::Submit(
+            SubmitRequest {
+                job_desc: JobDescription { name: "j".into(), max_fails: None },
+                submit_desc: JobSubmitDescription {
+                    task_desc: JobTaskDescription::Array { ids: IntArray::from_id(0), entries: None, resource_rq: rq, task_desc: task_desc(prio, CrashLimit::default(), None) },
+                    submit_dir: "/tmp".into(),
+                    stream_path: None,
+                },
+                job_id: None,
+            },
+            None,
+        );
+        let mn = ResourceRequestVariants::new_simple(ResourceRequest { n_nodes: 2, resources: Default::default(), min_time: Default::default(), weight: Default::default() });
+        self.world.client(mk(prio_mn, mn));
+        self.world.client(mk(1, cpu_rq(1, 0)));
+        for i in 0..3 {
+            let r = self.world.schedule();
+            let snap = self.world.server.core_snapshot();
+            println!("round {i}: {:?} tasks: {:?}", r, snap.tasks.iter().map(|t| format!("{} {:?}", tid(t.id), t.state)).collect::<Vec<_>>());
+        }
     }
 
     pub fn act_open(&mut self) {
@@ -590,6 +728,7 @@ impl Sim {
             for (j, r) in rs {
                 let t = match r {
                     CancelJobResponse::Canceled(ts, n) => {
+                        self.mon.cancel_answered(ts.iter().map(|t| TaskId::new(j, *t)));
                         let mut ts: Vec<u32> = ts.iter().map(|t| t.as_num()).collect();
                         ts.sort();
                         format!("canceled {} {}", list(ts.iter()), n)
@@ -640,15 +779,40 @@ impl Sim {
     }
 
     pub fn act_add_worker(&mut self) {
-        let cpus = self.rng.range(1, 4) as u32;
-        let group = if self.rng.chance(1, 3) { if self.rng.chance(1, 2) { "ga" } else { "gb" } } else { "default" };
+        let (desc, totals) = gen_worker_resources(&mut self.rng, self.profile);
+        let group = if self.profile == 2 {
+            if self.rng.chance(1, 2) { "ga" } else { "gb" }
+        } else if self.rng.chance(1, 3) {
+            if self.rng.chance(1, 2) { "ga" } else { "gb" }
+        } else {
+            "default"
+        };
         let next = WorkerId::new(self.world.server.worker_counter() + 1);
-        let cfg = worker_config(next, cpus, group, None);
-        self.log.push(format!("add_worker cpus={cpus} group={group}"));
-        let op = format!("wnew {} tot={} g={} term=-", next.as_num(), cpus as u64 * 10_000, group);
-        self.world_action(vec![op], |s| {
+        let mut cfg = worker_config(next, 1, group, None);
+        cfg.resources = desc;
+        self.log.push(format!("add_worker res={:?} group={group}", totals));
+        // the resource id of "gpus" may differ from its position when it was registered after other names
+        let op_group = group;
+        let _ = op_group;
+        self.guarded(|s| {
             s.world.add_worker(cfg);
         });
+        let tot = self
+            .world
+            .server
+            .core_snapshot()
+            .workers
+            .iter()
+            .find(|w| w.id == next.as_num())
+            .map(|w| list(w.total.iter()))
+            .unwrap_or("-".into());
+        let op = format!("wnew {} tot={} g={} term=-", next.as_num(), tot, group);
+        self.flush_callbacks(vec![op]);
+        if let Some(p) = &self.panicked {
+            let l = format!("mon FAIL c09.panic {} {}", panic_site(p), p.replace('\n', " "));
+            self.job.lines.push(l.clone());
+            self.core.lines.push(l);
+        }
     }
 
     pub fn act_lose_worker(&mut self) {
@@ -699,14 +863,25 @@ impl Sim {
             let m: String = m.chars().filter(|c| *c != '\n').take(400).collect();
             self.log.push(format!("deliver {} {} {}", if to_worker { "s2w" } else { "w2s" }, id, m));
             if !to_worker {
-                if let Some(op) = crate::coreview::update_op(id, w.to_server.front().unwrap()) {
+                let front = w.to_server.front().unwrap();
+                if let Some(op) = crate::coreview::update_op(id, front) {
                     ops.push(op);
+                }
+                if let tako::internal::messages::worker::FromWorkerMessage::TaskUpdate(us) = front {
+                    let snap = self.world.server.core_snapshot();
+                    for u in us.iter() {
+                        if let tako::internal::messages::worker::WorkerTaskUpdate::RunningPrefilled(m) = u {
+                            self.mon.before_running_prefilled(id, m.task_id, m.rv_id.as_num() as u32, &snap);
+                        }
+                    }
                 }
             }
         }
         self.world_action(ops, |s| {
             if to_worker {
-                s.world.deliver_to_worker(id);
+                if let Some(m) = s.world.deliver_to_worker(id) {
+                    s.mon.worker_processed(id, &m);
+                }
             } else {
                 s.world.deliver_to_server(id);
             }
@@ -722,6 +897,9 @@ impl Sim {
         let (w, t) = *self.rng.pick(&running);
         let kind = if self.rng.chance(1, 4) { EndKind::Error } else { EndKind::Finished };
         self.log.push(format!("end_task w={w} {} {:?}", tid(t), kind));
+        if kind == EndKind::Finished {
+            self.mon.finished_ok.insert((w, t));
+        }
         self.world_action(vec![], |s| {
             s.world.end_task(w, t, kind);
         });
@@ -741,7 +919,7 @@ impl Sim {
     pub fn step(&mut self) {
         let nworkers = self.world.workers.len() as u64;
         let w = [
-            if nworkers < 3 { 6 } else { 0 }, // add worker
+            if nworkers < if self.profile == 2 { 4 } else { 3 } { 6 } else { 0 }, // add worker
             8,                                // submit
             2,                                // open
             3,                                // close
@@ -792,6 +970,7 @@ impl Sim {
                     break;
                 }
                 self.log.push(format!("end_task w={w} {} Finished (drain)", tid(t)));
+                self.mon.finished_ok.insert((w, t));
                 self.world_action(vec![], |s| {
                     s.world.end_task(w, t, EndKind::Finished);
                 });
@@ -809,7 +988,16 @@ impl Sim {
                 // one more scheduling round must not dispatch anything
                 self.act_schedule();
                 let pending = self.world.workers.values().any(|w| !w.to_worker.is_empty() || !w.to_server.is_empty());
-                if !pending {
+                if !pending && self.world.running_tasks().is_empty() && !self.world.server.scheduling_flag() {
+                    let jobs = snapshot_jobs(&self.world.state_ref);
+                    let snap = self.world.server.core_snapshot();
+                    let completed = self.completed.clone();
+                    self.mon.rest(&jobs, &snap, &completed);
+                    let fails = std::mem::take(&mut self.mon.fails);
+                    for f in fails {
+                        self.job.lines.push(f.clone());
+                        self.core.lines.push(f);
+                    }
                     return true;
                 }
             }
@@ -827,22 +1015,27 @@ pub fn is_job_layer_panic(msg: &str) -> bool {
 }
 
 pub fn panic_site(msg: &str) -> String {
-    // a short keyword of the panic message (free text is never compared)
-    let m = msg.to_lowercase();
-    for (k, v) in [
-        ("invalid task id", "get_task"),
-        ("invalid worker id", "get_worker"),
-        ("invalid worker state, expected running", "set_finished_state"),
-        ("expected running or waiting", "set_failed_state"),
-        ("being canceled", "set_cancel_state"),
-        ("being aborted", "abort_tasks"),
-        ("unreachable", "unreachable"),
-        ("assertion", "assert"),
-        ("unwrap", "unwrap"),
-        ("overflow", "overflow"),
-    ] {
-        if m.contains(k) {
-            return v.to_string();
+    // "[<path under crates/>:<line>] message" -> "<file stem>.<enclosing fn>" read from the current source
+    if let Some(rest) = msg.strip_prefix('[') {
+        if let Some((loc, _)) = rest.split_once(']') {
+            if let Some((file, line)) = loc.rsplit_once(':') {
+                if let (Ok(line), Ok(text)) = (line.parse::<usize>(), std::fs::read_to_string(format!("/repo/crates/{file}"))) {
+                    let lines: Vec<&str> = text.lines().collect();
+                    let stem = std::path::Path::new(file).file_stem().and_then(|s| s.to_str()).unwrap_or("file");
+                    let mut i = line.min(lines.len());
+                    while i > 0 {
+                        i -= 1;
+                        let l = lines[i].trim_start();
+                        let l = l.strip_prefix("pub(crate) ").or(l.strip_prefix("pub ")).unwrap_or(l);
+                        let l = l.strip_prefix("async ").unwrap_or(l);
+                        if let Some(r) = l.strip_prefix("fn ") {
+                            let name: String = r.chars().take_while(|c| c.is_alphanumeric() || *c == '_').collect();
+                            return format!("{stem}.{name}");
+                        }
+                    }
+                    return format!("{stem}.?");
+                }
+            }
         }
     }
     "other".to_string()
